@@ -51,6 +51,27 @@ class MemberApp(KVApp):
                 if w is not None and not w.hosts[idx].doomed:
                     w.oracle.on_member_result(tag, err)
             world.oracle.on_member_request(tag, k, ev[2], ev[3])
+            if len(ev) > 5 and ev[5] == 'admin':
+                # the admin-message path (what syncobj_admin does): a utility connection from the node's own machine
+                # carries ['add'|'remove', address]; the answer ('SUCCESS ADD <addr>' / 'FAIL ...') comes back on it
+                from ..net import SimSocket
+                from .c13 import encode, RefReceiver
+                net = world.net
+                sock = SimSocket(net, h.idx)
+                try:
+                    sock.connect(('10.0.0.%d' % (h.idx + 1), 4001 + h.idx))
+                except BlockingIOError:
+                    pass
+                if net.resolve_connect(sock.conn.cid, 'ok') != 'ok':
+                    return 'refused'
+                try:
+                    sock.send(encode(['add' if k == 'madd' else 'remove', addr]))
+                except (BlockingIOError, OSError):
+                    return 'notsent'
+                net.deliver(sock.tx.pid, 0)
+                world.oracle.admin_conns.append((sock, tag, RefReceiver()))
+                world.probe('membership_request_by_admin_message')
+                return ('ok', h.idx)
             try:
                 if k == 'madd':
                     h.node.addNodeToCluster(addr, callback=cb)
@@ -91,6 +112,7 @@ class MemberOracle(RaftOracle):
         self.seen_member_entries = {}        # host -> set of (idx, term) membership entries already examined
         self.removed_committed = {}          # target idx -> position
         self.seen_blobs = {}
+        self.admin_conns = []                # (utility socket, request tag, frame decoder) of admin-message requests
 
     # -- bookkeeping -----------------------------------------------------------------------
     def on_member_request(self, tag, kind, via, target):
@@ -191,6 +213,21 @@ class MemberOracle(RaftOracle):
     def after_event(self, ev, out, touched):
         RaftOracle.after_event(self, ev, out, touched)
         w = self.w
+        if self.admin_conns:
+            # answers to admin-message requests
+            keep = []
+            for sock, tag, rr in self.admin_conns:
+                if sock.rx is not None and sock.rx.rcv:
+                    rr.feed(bytes(sock.rx.rcv))
+                    del sock.rx.rcv[:]
+                if rr.out:
+                    ans = rr.out[0]
+                    w.probe('admin_answer_' + (str(ans).split(' ')[0] if isinstance(ans, str) else type(ans).__name__))
+                    self.on_member_result(tag, 0 if isinstance(ans, str) and ans.startswith('SUCCESS') else -1)
+                    sock.close()
+                elif sock.state == 'connected' and not sock.reset:
+                    keep.append((sock, tag, rr))
+            self.admin_conns = keep
         if touched is None:
             return
         h = w.hosts[touched]
@@ -389,6 +426,8 @@ class MemberSched(Scheduler):
                 j = rng.choice(spares)
                 w.hosts[j].extra['used'] = True
                 evs = [[dt, 'join', j], [rng.choice([0.0, 0.01, 0.1]), 'madd', via, j, tag]]
+                if rng.random() < self.s.get('p_admin', 0.0):
+                    evs[1].append('admin')
                 if rng.random() < 0.3:
                     evs.reverse()
                     evs[0][0], evs[1][0] = dt, 0.05
@@ -396,6 +435,8 @@ class MemberSched(Scheduler):
                 return evs[0]
             if len(cur) >= 2:
                 j = rng.choice(sorted(cur))
+                if rng.random() < self.s.get('p_admin', 0.0):
+                    return [dt, 'mrem', via, j, tag, 'admin']
                 return [dt, 'mrem', via, j, tag]
             return [dt, 'nop']
         return Scheduler.build_extra(self, k, dt)
@@ -417,6 +458,8 @@ class C10Spec(c01.C01Spec):
         cfg['placement'] = 'memory'
         s = cfg['sched']
         s['w_member'] = rng.choice([0.02, 0.05, 0.15])
+        # share of the membership requests that arrive as admin messages on a utility connection instead of API calls
+        s['p_admin'] = rng.choice([0.0, 0.3, 0.6])
         s['w_kill'] = 0.0
         s['w_start'] = 0.0
         s['steps'] = rng.choice([2500, 5000])
